@@ -38,7 +38,33 @@ def dotted(node):
     return None
 
 
+_SET_NAMES = [set()]        # names bound to sets in the function being scanned (filled by the scan loop)
+
+
+def _ann_is_set(ann):
+    txt = ast.unparse(ann) if ann is not None else ""
+    return txt.split("[")[0].split(".")[-1] in ("set", "Set", "frozenset", "FrozenSet", "AbstractSet", "MutableSet")
+
+
+def local_set_names(fn):
+    """names of a function body that are (only ever) bound to set values"""
+    names, other = set(), set()
+    for n in ast.walk(fn):
+        if isinstance(n, ast.Assign):
+            for t in n.targets:
+                if isinstance(t, ast.Name):
+                    (names if is_set_expr(n.value) else other).add(t.id)
+        elif isinstance(n, ast.AnnAssign) and isinstance(n.target, ast.Name):
+            if _ann_is_set(n.annotation) or (n.value is not None and is_set_expr(n.value)):
+                names.add(n.target.id)
+            else:
+                other.add(n.target.id)
+    return names - other
+
+
 def is_set_expr(node):
+    if isinstance(node, ast.Name) and node.id in _SET_NAMES[0]:
+        return True
     if isinstance(node, (ast.Set, ast.SetComp)):
         return True
     if isinstance(node, ast.Call):
@@ -146,7 +172,20 @@ def build(S, tier):
         def excluded(node):
             return any(a <= node.lineno <= b for a, b in excluded_spans)
 
+        # set-valued locals, per function (a set that is later turned into a list / iterated orders its elements by hash)
+        fn_sets = [(f.lineno, f.end_lineno, local_set_names(f)) for f in ast.walk(tree) if isinstance(f, (ast.FunctionDef, ast.AsyncFunctionDef))]
+
+        def enter(node):
+            ln = getattr(node, "lineno", None)
+            best = set()
+            span = None
+            for a_, b_, names_ in fn_sets:
+                if ln is not None and a_ <= ln <= b_ and (span is None or (b_ - a_) < span):
+                    best, span = names_, b_ - a_
+            _SET_NAMES[0] = best
+
         for n in ast.walk(tree):
+            enter(n)
             if isinstance(n, ast.Call) and not excluded(n):
                 f = dotted(n.func)
                 site = f"{rel}:{n.lineno}"
